@@ -314,8 +314,17 @@ func harnessC12ConcurrentPublisher() {
 	wg.Wait()
 	vJoinAll()
 	// drain: a restart with a healthy subscription must complete the picture
+	mu.Lock()
+	beforeDrain := len(dels)
+	mu.Unlock()
 	bus2 := New(WithStore(mem))
 	vAssert(SubscribeWithReplay(context.Background(), bus2, "sub", h) == nil, "drain-subscribe-ok")
+	logPos := func(n int) int { // position in the log: the pre-stored event first
+		if n == 100 {
+			return 0
+		}
+		return n
+	}
 	for _, n := range []int{100, 1, 2} {
 		if n > K && n != 100 {
 			continue
@@ -326,7 +335,16 @@ func harnessC12ConcurrentPublisher() {
 				c++
 			}
 		}
-		vAssertK(c >= 1, "no-persisted-event-lost", "KF-C12-publish-during-subscribe", true)
+		// the recorded finding: an event missed in the window between the replay's read and the
+		// registration of the live handler is skipped for good ONCE A LATER EVENT IS DELIVERED LIVE
+		// (the saved offset then jumps past it). A loss without such a later delivery is something else.
+		laterLive := false
+		for _, d := range dels[:beforeDrain] {
+			if logPos(d) > logPos(n) {
+				laterLive = true
+			}
+		}
+		vAssertK(c >= 1, "no-persisted-event-lost", "KF-C12-publish-during-subscribe", laterLive)
 		vAssertK(c <= 1, "exactly-once-without-faults", "KF-C12-live-offset-is-bus-wide", true)
 	}
 	vCover("interleaved")
